@@ -84,6 +84,23 @@ def specs(vidx):
                            'qu': None, 'tu': 'mL', 'broadcast': False}
                     yield {'solutes': solutes, 'solvent': solvent, 'level': level, 'mode': 'cq', 'cu': cu, 'cu2': cu2,
                            'qu': 'mg', 'tu': None, 'broadcast': False}
+    # quantities of the solutes stated in units of DIFFERENT kinds (moles next to grams next to millilitres)
+    for solutes, qus in ((['nacl', 'na2so4'], ['mmol', 'g']), (['nacl', 'na2so4'], ['mg', 'mol']), (['nacl', 'dmso'], ['g', 'mL']),
+                         (['nacl', 'dmso'], ['umol', 'mg']), (['nacl', 'na2so4', 'dmso'], ['mmol', 'mg', 'uL'])):
+        for solvent in ('water', 'W1'):
+            for level in ('medium', 'infeasible'):
+                yield {'solutes': solutes, 'solvent': solvent, 'level': level, 'mode': 'qt', 'cu': None, 'qu': qus[0], 'qus': qus,
+                       'tu': 'mL', 'broadcast': False}
+                yield {'solutes': solutes, 'solvent': solvent, 'level': level, 'mode': 'cq', 'cu': 'M', 'qu': qus[0], 'qus': qus,
+                       'tu': None, 'broadcast': False}
+    # three solutes whose concentrations share a denominator that is NOT adjacent in the list (molar, molal, molar ...)
+    for cus in (['M', 'm', 'M'], ['m', 'M', 'm'], ['%w/w', '%v/v', 'mg/g'], ['g/L', 'mol/mol', 'mol/L'], ['mol/kg', 'g/g', 'M']):
+        for solvent in ('water', 'W1'):
+            for level in ('medium', 'infeasible'):
+                yield {'solutes': ['nacl', 'na2so4', 'dmso'], 'solvent': solvent, 'level': level, 'mode': 'ct', 'cu': cus[0],
+                       'cu2': cus[1], 'cus': cus, 'qu': None, 'tu': 'mL', 'broadcast': False}
+                yield {'solutes': ['nacl', 'na2so4', 'dmso'], 'solvent': solvent, 'level': level, 'mode': 'cq', 'cu': cus[0],
+                       'cu2': cus[1], 'cus': cus, 'qu': 'mg', 'tu': None, 'broadcast': False}
     # a unit that cannot measure the solute: must be refused
     for solute, cu in (('nacl', 'U/mL'), ('dmso', 'U/g'), ('lipase', 'M'), ('lipase', 'mol/mol')):
         yield {'solutes': [solute], 'solvent': 'water', 'level': 'medium', 'mode': 'ct', 'cu': cu, 'qu': None, 'tu': 'mL',
@@ -119,7 +136,7 @@ def build_spec(pp, subs, sp):
         mult, num, den = ref.parse_concentration('1 ' + sp['cu'])
         if sp.get('cu2'):
             # per-solute unit pairs
-            units = [sp['cu'], sp['cu2']]
+            units = sp.get('cus') or [sp['cu'], sp['cu2']]
             strs, rows_c = [], []
             for i, (xi, r, cu) in enumerate(zip(x, rsol, units)):
                 _, nu, de = ref.parse_concentration('1 ' + cu)
@@ -164,12 +181,13 @@ def build_spec(pp, subs, sp):
                 pj = ref.per_base(rsol[j], ref.split_unit(sp['qu'])[1])
                 if pj != 0:
                     x[j] = q0 / pj
+        qunits = sp.get('qus') or [sp['qu']] * n          # per-solute quantity units (mixed bases) where given
         for i, (xi, r) in enumerate(zip(x, rsol)):
-            pf, b = ref.split_unit(sp['qu'])
+            pf, b = ref.split_unit(qunits[i])
             val = xi * ref.per_base(r, b) / pf
             if sp.get('perturb') and i == n - 1:
                 val = val * F(101, 100)
-            qs.append(fmt(val, sp['qu']))
+            qs.append(fmt(val, qunits[i]))
         kw['quantity'] = qs[0] if (sp['broadcast'] or n == 1) else qs
         for i, s in enumerate(qs):
             v, b = ref.parse_quantity(s)
@@ -251,11 +269,18 @@ def run_spec(sp):
     if not sp.get('wrong_kind'):
         # a unit that cannot measure one of the solutes (activity of a salt, moles of an enzyme) makes the stated value
         # vacuous (0): such specifications are generated only in the wrong-kind family
+        if sp.get('cu2'):
+            for s, cu in zip(solutes, sp.get('cus') or [sp['cu'], sp['cu2']]):
+                if ref.per_base(ref.rsub(s), ref.parse_concentration('1 ' + cu)[1]) == 0:
+                    return [], ('skip',)          # e.g. %v/v of a solid without volume (a configuration): vacuous
         for s in solutes:
             rs = ref.rsub(s)
             if sp['cu'] and not sp.get('cu2') and ref.per_base(rs, ref.parse_concentration('1 ' + sp['cu'])[1]) == 0:
                 return [], ('skip',)
             if sp['qu'] and ref.per_base(rs, ref.split_unit(sp['qu'])[1]) == 0:
+                return [], ('skip',)
+        for s, qu in zip(solutes, sp.get('qus') or []):
+            if ref.per_base(ref.rsub(s), ref.split_unit(qu)[1]) == 0:
                 return [], ('skip',)
     is_c = sp['solvent'] in CONTAINERS
     sp = dict(sp)
